@@ -841,6 +841,34 @@ func (st *c10State) checkTree(rep *kit.Report, t *c10Tree, full bool, single int
 		} else if sgot != want {
 			g := sgot
 			st.report(rep, t, c10PathSel, "SearchSeriesIterator", name, scope, want, c10MaskString(sgot), sgot, true, single, func(h c10Mask) bool { return h == g })
+		} else {
+			// the same predicate again, twice: the select path learns from the first evaluation (cost of a filter) and may
+			// take another strategy (evaluate the series keys directly instead of intersecting id sets) from the second on
+			for again := 2; again <= 3; again++ {
+				// evaluation 3 runs with the pruning threshold at 0: whenever a cost is known for a filter the series keys are
+				// evaluated directly ("prune") instead of intersecting id sets - in production that needs a measurement with more
+				// than 10x the series the other filters select; both strategies must give the same answer
+				savedThreshold := pruneThreshold
+				if again == 3 {
+					pruneThreshold = 0
+				}
+				itr2, err2 := st.x.idx.SearchSeriesIterator(nil, bname, &query.ProcessorOptions{Condition: t.expr[c10PathSel]})
+				pruneThreshold = savedThreshold
+				var sids2 []uint64
+				if itr2 != nil && err2 == nil {
+					sids2 = itr2.Ids().AppendTo(nil)
+				}
+				g2, merr2 := st.maskOfIDs(sids2)
+				if err2 != nil || merr2 != nil {
+					st.violation(rep, "search_error", fmt.Sprintf("SearchSeriesIterator(evaluation %d)|%s|%s", again, name, t.Text), fmt.Sprintf("%v %v", err2, merr2), t.Text)
+					break
+				}
+				if g2 != want {
+					g := g2
+					st.report(rep, t, c10PathSel, fmt.Sprintf("SearchSeriesIterator(evaluation %d)", again), name, scope, want, c10MaskString(g2), g2, true, single, func(h c10Mask) bool { return h == g })
+					break
+				}
+			}
 		}
 
 		// (3) show tag values with the condition
